@@ -185,6 +185,13 @@ impl<'a> Src<'a> {
             let f: &str = *self.pick(pool);
             s.push_str(f);
         }
+        // beyond the hand-written pools: now and then an arbitrary Unicode scalar value
+        if self.chance(12) {
+            let u = self.u32raw() % 0x11_0000;
+            if let Some(c) = char::from_u32(u) {
+                s.push(c);
+            }
+        }
         s
     }
 
